@@ -189,6 +189,9 @@ class Play:
         if state0 is not None:
             it.state = state0
             it.queue.clear()
+        if getattr(self, "_carry_occ", None) is not None:  # the recorder (and its occurrence counters) outlives the machine
+            it.occ = self._carry_occ
+            self._carry_occ = None
         return it
 
     async def construct(self, name="main", model=None, Hh=None, state0=None):
@@ -353,6 +356,40 @@ class Play:
         ctx = self.ctxs[step.get("target", "main")]
         self.attach(ctx, step["prov"])
         self.labels.add("attach:" + ("repeat" if step.get("repeat") else "first"))
+
+    async def op_reconstruct(self, step):
+        """A new machine over the same model object (restart after any history): a stored valid state is resumed untouched,
+        no callback runs; a model without state is activated as usual."""
+        old = self.ctxs[step.get("target", "main")]
+        model = old.sm.model
+        stored = getattr(model, self.field, None)
+        for k in ("rtc", "allow"):
+            if k in step:
+                setattr(self, k, step[k])
+        state0 = old.interp.state
+        old.H.log.clear()
+        self._carry_occ = old.interp.occ
+        if step.get("fresh"):
+            # another instance of the same class over a brand-new model, possibly with another start_value
+            self.cfg = dict(self.cfg)
+            self.cfg.pop("start_value", None)
+            if "start_value" in step:
+                self.cfg["start_value"] = step["start_value"]
+            shape = self.cfg.get("model_shape", "default")
+            base = self.rendered.provider_classes.get("model")
+            model = make_model(shape if shape != "default" or base else "plain", base, self.field, old.H)
+            state0 = None
+            self.labels.add("fresh-model-same-class")
+        ctx = await self.construct(old.name, model=model, Hh=old.H, state0=state0)
+        ctx.extra.update({k: v for k, v in old.extra.items() if k == "user_model"})
+        if state0 is not None:
+            now = getattr(model, self.field, None)
+            if now is not stored and repr(now) != repr(stored):
+                raise Fail("stored-state-touched", f"step {self.i}: reconstruction changed the stored value from {stored!r} to {now!r}")
+            if now is not stored and type(stored).__module__ == "vcheck.core":
+                raise Fail("stored-state-touched", f"step {self.i}: reconstruction replaced the stored enum member")
+        self.labels.add("reconstruct:" + ("resume" if state0 is not None else "fresh"))
+        self.check_state(ctx, f"step {self.i} reconstruction over the same model")
 
     async def body(self):
         await self.construct()
